@@ -886,6 +886,11 @@ func isSafeForMultilineReverseSuffix(re *syntax.Regexp) bool {
 	if !isMultilineLineAnchored(re) {
 		return false
 	}
+	// The searcher works line by line; (?s:.) and classes containing '\n' let a
+	// match run over several lines.
+	if canConsumeNewline(re) {
+		return false
+	}
 
 	switch re.Op {
 	case syntax.OpConcat:
@@ -920,6 +925,32 @@ func isSafeForMultilineReverseSuffix(re *syntax.Regexp) bool {
 	default:
 		return false
 	}
+}
+
+// canConsumeNewline reports whether some element of the pattern can match '\n'.
+func canConsumeNewline(re *syntax.Regexp) bool {
+	switch re.Op {
+	case syntax.OpAnyChar:
+		return true
+	case syntax.OpLiteral:
+		for _, r := range re.Rune {
+			if r == '\n' {
+				return true
+			}
+		}
+	case syntax.OpCharClass:
+		for i := 0; i+1 < len(re.Rune); i += 2 {
+			if re.Rune[i] <= '\n' && '\n' <= re.Rune[i+1] {
+				return true
+			}
+		}
+	}
+	for _, sub := range re.Sub {
+		if canConsumeNewline(sub) {
+			return true
+		}
+	}
+	return false
 }
 
 // isWildcardOp checks if the op is a wildcard pattern (.*, .+, or [charclass]+)
@@ -1119,6 +1150,13 @@ func selectReverseStrategy(n *nfa.NFA, re *syntax.Regexp, literals *literal.Seq,
 	//   }
 	if hasFastPrefixPrefilter(literals, config) {
 		return 0 // Fast prefix prefilter available - skip reverse optimizations
+	}
+
+	// The remaining reverse strategies run a reversed automaton, which carries
+	// no assertions: a pattern with ^, $, \A or \z anywhere would match where
+	// the anchor forbids it.
+	if containsAnchor(re) {
+		return 0
 	}
 
 	// No good/fast prefix - check suffix and inner literals
